@@ -1,13 +1,13 @@
 (** C09 - spline quadrature weights integrate the interpolant (get_quadrature_coefficients of
     spline_interpolators.py, BSplines._build_integrals of splines.py).
-    Only statements, [exact]s and [Print Assumptions]; proofs in InterpTheory.v, QuadTheory.v, GrevilleTheory.v, QuadSumTheory.v, CirculantTheory.v (model: InterpModel.v; seeds:
+    Only statements, [exact]s and [Print Assumptions]; proofs in InterpTheory.v, QuadTheory.v, GrevilleTheory.v, QuadSumTheory.v, CirculantTheory.v, CubicQuadTheory.v (model: InterpModel.v; seeds:
     Sums.weights_dual, CoxDeBoorGen.basis_eq_delta) and InterpQc.v (Qc instance, witnesses).  Every theorem holds for every field with a
     compatible decidable total order, every degree and size.
 
     Model: [ip_integrals] is _build_integrals as written (general branch: degree-raised basis on the knots
     extended by one at both ends, max/min with the domain, sum(values[min_idx:]), for ALL ncells + d unwrapped
-    pieces - repair 38b0bf4, the pinned tree mirrored the last d; uniform-cubic branch with its three hard-coded edge values written at
-    i and -i-1); [ip_quad_from ... I] is get_quadrature_coefficients for the integrals I (transposed solve;
+    pieces - repair 38b0bf4, the pinned tree mirrored the last d; uniform-cubic branch with its three edge cuts step_i = dx*sum(values[:3-i]) SUBTRACTED at i and -i-1
+    from integrals[:] = dx - repair 974ae9f); [ip_quad_from ... I] is get_quadrature_coefficients for the integrals I (transposed solve;
     periodic folding basis_quads[:p] += integrals[n:] = [ip_quad_rhs]); [ip_quadrature] composes them.
 
     NOT proved here (see the evidence, "uncovered_clauses"):
@@ -21,11 +21,12 @@
     [c09_quadrature_periodic_nonuniform_ok] is the instance that failed on the pinned tree (defect 6, repaired by 38b0bf4);
     the general statement is [c09_weights_sum_general].
 
-    REFUTED by the faithful model (and by the code, defect 7 of DESIGN section 9):
-    [c09_integrals_cubic_clamped_small_refuted]. *)
+    Nothing is refuted any more: the three defects of the pinned tree (DESIGN section 9: 6, 7, 10) are repaired in /repo
+    (38b0bf4, 974ae9f, 6a5dc09), the model follows the repaired code and the former witnesses are positive examples
+    ([c09_quadrature_periodic_nonuniform_ok], [c09_integrals_cubic_clamped_small_ok]). *)
 From Coq Require Import List Arith Lia ZArith Bool QArith Qcanon.
 Import ListNotations.
-From PGV Require Import BasisCoxDeBoor CoxDeBoorGen FindSpan CubicUniform CollocRow Sums SplineModel SplineTheory SplineQc InterpModel InterpTheory Interp2D QuadTheory GrevilleTheory QuadSumTheory CirculantTheory InterpQc.
+From PGV Require Import BasisCoxDeBoor CoxDeBoorGen FindSpan CubicUniform CollocRow Sums SplineModel SplineTheory SplineQc InterpModel InterpTheory Interp2D QuadTheory GrevilleTheory QuadSumTheory CirculantTheory CubicQuadTheory InterpQc.
 
 (** the weights solve the TRANSPOSED collocation system C^T w = q, q = integrals (clamped) or the folded integrals (periodic) *)
 Theorem c09_quad_from_spec :
@@ -311,24 +312,56 @@ Theorem c09_quadrature_periodic_nonuniform_ok :
 Proof. exact (@ipq_quadrature_periodic_nonuniform_ok). Qed.
 Print Assumptions c09_quadrature_periodic_nonuniform_ok.
 
-(** REFUTATION (defect 7): uniform-cubic clamped spaces with 1 and 2 cells: the stored integrals sum to 2 and 49/24 on domains of length 1 and 2 (3 cells: correct) *)
-Theorem c09_integrals_cubic_clamped_small_refuted :
+(** uniform-cubic CLAMPED path (repaired code): for EVERY ncells >= 1 and dx > 0 the ncells + 3 stored integrals sum to ncells * dx (each cut lowers the total by step_i whatever the overlap; step_0 + step_1 + step_2 = 3 dx / 2 from the partition of unity, the Greville identity of degree 4 and the vanishing last value at a knot) *)
+Theorem c09_integrals_cubic_clamped_sum :
+  forall (F : Type) (K : sp_ops F),
+  sp_laws K ->
+  forall (xmin xmax dx fn : F) (n : nat),
+  sp_lt K (sp0 K) dx ->
+  sptrunc K fn = Z.of_nat n ->
+  (1 <= n)%nat ->
+  exists Il : list F,
+  ip_integrals F K [xmin; xmax; dx; fn] 3 false true = SpOk Il /\
+  length Il = (n + 3)%nat /\ sumF F (sp0 K) (spadd K) Il = spmul K (sp_ofnat F K n) dx.
+Proof. exact (@ip_integrals_cubic_clamped_sum). Qed.
+Print Assumptions c09_integrals_cubic_clamped_sum.
+
+(** hence the quadrature weights of a uniform-cubic clamped space sum to ncells * dx (no certificate needed: rows sum to one on this path unconditionally) *)
+Theorem c09_weights_sum_cubic_clamped :
+  forall (F : Type) (K : sp_ops F),
+  sp_laws K ->
+  forall (xmin xmax dx fn : F) (n : nat) (xs w : list F),
+  sp_lt K (sp0 K) dx ->
+  sptrunc K fn = Z.of_nat n ->
+  ip_quadrature F K [xmin; xmax; dx; fn] 3 false true xs = SpOk w ->
+  ip_sum F K (n + 3) (fun i : nat => nth i w (sp0 K)) = spmul K (sp_ofnat F K n) dx.
+Proof. exact (@ip_weights_sum_cubic_clamped). Qed.
+Print Assumptions c09_weights_sum_cubic_clamped.
+
+(** the instances that failed on the pinned tree (defect 7, repaired by 974ae9f), on Qc: 1 cell 1/24, 11/24, 11/24, 1/24 (sum 1); 2 cells 1/24, 1/2, 11/12, 1/2, 1/24 (sum 2); 3 cells sum 3 *)
+Theorem c09_integrals_cubic_clamped_small_ok :
   match ip_integrals Qc spq_ops (ipq_z [0; 1; 1; 1]) 3 false true with
   | SpOk ints =>
-  map spq_show ints = [(1, 24%positive); (23, 24%positive); (23, 24%positive); (1, 24%positive)] /\
-  spq_show (ipq_total ints) = (2, 1%positive)
+  map spq_show ints = [(1, 24%positive); (11, 24%positive); (11, 24%positive); (1, 24%positive)] /\
+  spq_show (ipq_total ints) = (1, 1%positive)
   | _ => False
   end /\
   match ip_integrals Qc spq_ops (ipq_z [0; 2; 1; 2]) 3 false true with
-  | SpOk ints => spq_show (ipq_total ints) = (49, 24%positive)
+  | SpOk ints =>
+  map spq_show ints =
+  [(1, 24%positive); (1, 2%positive); (11, 12%positive); (1, 2%positive); (1, 24%positive)] /\
+  spq_show (ipq_total ints) = (2, 1%positive)
   | _ => False
   end /\
   match ip_integrals Qc spq_ops (ipq_z [0; 3; 1; 3]) 3 false true with
-  | SpOk ints => spq_show (ipq_total ints) = (3, 1%positive)
+  | SpOk ints =>
+  map spq_show ints =
+  [(1, 24%positive); (1, 2%positive); (23, 24%positive); (23, 24%positive); (
+  1, 2%positive); (1, 24%positive)] /\ spq_show (ipq_total ints) = (3, 1%positive)
   | _ => False
   end.
-Proof. exact (@ipq_integrals_cubic_clamped_small_refuted). Qed.
-Print Assumptions c09_integrals_cubic_clamped_small_refuted.
+Proof. exact (@ipq_integrals_cubic_clamped_small_ok). Qed.
+Print Assumptions c09_integrals_cubic_clamped_small_ok.
 
 (** the executed instance satisfies the laws *)
 Theorem c09_qc_laws :
